@@ -447,3 +447,44 @@ Proof.
   intros Hok Hcl. apply (builder_chain_gen t n Hok [] h); [exact Hcl|reflexivity|].
   destruct Hcl as (Hz & _). intros; contradiction.
 Qed.
+
+(* ---- the chain-level verifier is the link-by-link check ------------------ *)
+
+Lemma verify_batch_none_iff t p l :
+  consecutive (p :: l) = true ->
+  (verify_batch t p l = None <-> valid_chain t (p :: l) = true).
+Proof.
+  revert p; induction l as [|h r IH]; intros p Hc.
+  - cbn. split; reflexivity.
+  - cbn [consecutive] in Hc. apply andb_true_iff in Hc as [Hn Hc].
+    cbn [verify_batch valid_chain].
+    rewrite Hn. cbn [andb].
+    destruct (verdict_eqb (verify_vs t p h) Ok) eqn:Hv; cbn [andb].
+    + specialize (IH h Hc). split.
+      * intro H. apply IH. destruct (verify_batch t h r); [discriminate|reflexivity].
+      * intro H. apply IH in H. rewrite H. reflexivity.
+    + split; discriminate.
+Qed.
+
+(* the index the chain-level verifier reports is the first rejected link: every
+   link before it is accepted, the link at it is rejected *)
+Lemma verify_batch_some t p l i :
+  verify_batch t p l = Some i ->
+  exists pre h post q,
+    l = pre ++ h :: post /\ N.of_nat (length pre) = i /\
+    q = last (p :: pre) p /\
+    verify_batch t p pre = None /\ verdict_eqb (verify_vs t q h) Ok = false.
+Proof.
+  revert p i; induction l as [|h r IH]; intros p i H; [discriminate|].
+  cbn [verify_batch] in H.
+  destruct (verdict_eqb (verify_vs t p h) Ok) eqn:Hv.
+  - destruct (verify_batch t h r) as [j|] eqn:Hr; [|discriminate].
+    cbn in H. injection H as <-.
+    destruct (IH h j Hr) as (pre & x & post & q & -> & Hl & Hq & Hpre & Hx).
+    exists (h :: pre), x, post, q. repeat split.
+    + cbn [length]. rewrite Nat2N.inj_succ, Hl. reflexivity.
+    + rewrite Hq. rewrite !last_cons. reflexivity.
+    + cbn [verify_batch]. rewrite Hv, Hpre. reflexivity.
+    + exact Hx.
+  - injection H as <-. exists [], h, r, p. repeat split; cbn; auto.
+Qed.
